@@ -1,7 +1,9 @@
 package errors
 
 import (
+	stderrors "errors"
 	"fmt"
+	"io/fs"
 	"strings"
 
 	"github.com/Vedant9500/WTF/internal/utils"
@@ -40,12 +42,14 @@ func NewDatabaseErrorWithContext(op, path string, cause error) error {
 			WithContext("file_path", path)
 	}
 
-	// Determine the specific error type and create appropriate user-friendly error
+	// Determine the specific error type and create appropriate user-friendly error.
+	// File-system failures are recognised by their cause, not by message text: a parse
+	// error may quote file content that happens to read "no such file or directory".
 	errStr := cause.Error()
 	switch {
-	case strings.Contains(errStr, "no such file or directory"):
+	case stderrors.Is(cause, fs.ErrNotExist):
 		return NewDatabaseNotFoundError(path, cause)
-	case strings.Contains(errStr, "permission denied"):
+	case stderrors.Is(cause, fs.ErrPermission):
 		return NewDatabasePermissionError(path, cause)
 	case strings.Contains(errStr, "yaml:") || strings.Contains(errStr, "unmarshal"):
 		return NewDatabaseParseError(path, cause)
